@@ -1111,3 +1111,561 @@ Proof.
   destruct (check_symmetry_true _ _ _ _ Hacc) as [_ [_ Hs]]. specialize (Hs eq_refl).
   intros i Hi. apply (shift_test_i_sound N Q i HQ Hd Hi). apply Hs. exact Hi.
 Qed.
+
+(** * Part E: totality *)
+
+(** ** the operator algebra keeps indices in range *)
+Local Notation insert := (Poly.insert K kadd kzero).
+Local Notation insert_sub := (Poly.insert_sub K ksub kopp kzero).
+Local Notation pass := (Poly.pass K kopp).
+Local Notation nai := (Poly.normalize_and_insert K kadd kopp kzero).
+Local Notation normalize := (Poly.normalize K kadd kopp kzero).
+
+Lemma insert_range : forall N m c p, mono_in_range N m -> poly_in_range N p -> poly_in_range N (insert m c p).
+Proof.
+  intros N m c p Hm. induction p as [|[m' c'] p IH]; intro Hp; cbn [Poly.insert].
+  - constructor; [exact Hm|constructor].
+  - inversion Hp as [|x y Hh Ht]; subst. destruct (mono_compare m m').
+    + destruct (kzero (kadd c' c)); [exact Ht|constructor; assumption].
+    + constructor; [exact Hm|exact Hp].
+    + constructor; [exact Hh|apply IH; exact Ht].
+Qed.
+Lemma insert_sub_range : forall N m c p, mono_in_range N m -> poly_in_range N p -> poly_in_range N (insert_sub m c p).
+Proof.
+  intros N m c p Hm. induction p as [|[m' c'] p IH]; intro Hp; cbn [Poly.insert_sub].
+  - constructor; [exact Hm|constructor].
+  - inversion Hp as [|x y Hh Ht]; subst. destruct (mono_compare m m').
+    + destruct (kzero (ksub c' c)); [exact Ht|constructor; assumption].
+    + constructor; [exact Hm|exact Hp].
+    + constructor; [exact Hh|apply IH; exact Ht].
+Qed.
+
+Lemma pass_range : forall N rec,
+  (forall m c tgt tgt', mono_in_range N m -> poly_in_range N tgt -> rec m c tgt = Done tgt' -> poly_in_range N tgt') ->
+  forall rest d p c tgt sw,
+  poly_in_range N tgt -> mono_in_range N d -> op_idx p < N -> mono_in_range N rest ->
+  match pass rec d p rest c tgt sw with
+  | PassVanish _ tgt' => poly_in_range N tgt'
+  | PassEnd _ m' _ tgt' _ => poly_in_range N tgt' /\ mono_in_range N m'
+  | PassFail _ _ => True
+  end.
+Proof.
+  intros N rec Hrec. induction rest as [|cur rest IH]; intros d p c tgt sw Ht Hd Hp Hr.
+  - rewrite pass_nil. split; [exact Ht|]. cbn [rev]. apply AlgebraProofs.mono_in_range_app.
+    + unfold mono_in_range in *. apply Forall_rev. exact Hd.
+    + constructor; [exact Hp|constructor].
+  - rewrite pass_cons. apply NormalizeProofs.mono_in_range_cons in Hr. destruct Hr as [Hcur Hr].
+    destruct (op_eqb p cur); [exact Ht|].
+    destruct (op_gtb p cur).
+    + destruct (op_eqb p (flip_type cur)).
+      * destruct (rec (rev d ++ rest) c tgt) as [tgt1| | | |] eqn:Er; try exact Logic.I.
+        assert (Hdr : mono_in_range N (rev d ++ rest)).
+        { apply AlgebraProofs.mono_in_range_app; [unfold mono_in_range in *; apply Forall_rev; exact Hd|exact Hr]. }
+        apply IH; try assumption.
+        -- apply (Hrec _ _ _ _ Hdr Ht Er).
+        -- apply NormalizeProofs.mono_in_range_cons. split; assumption.
+      * apply IH; try assumption. apply NormalizeProofs.mono_in_range_cons. split; assumption.
+    + apply IH; try assumption. apply NormalizeProofs.mono_in_range_cons. split; assumption.
+Qed.
+
+Lemma nai_range : forall N f m c tgt tgt', mono_in_range N m -> poly_in_range N tgt ->
+  nai f m c tgt = Done tgt' -> poly_in_range N tgt'.
+Proof.
+  intros N. induction f as [|f IHf]; intros m c tgt tgt' Hm Ht H; [rewrite nai_O in H; discriminate|].
+  rewrite NormalizeProofs.nai_S in H.
+  destruct m as [|first [|x r]].
+  - inversion H; subst. apply insert_range; assumption.
+  - inversion H; subst. apply insert_range; assumption.
+  - apply NormalizeProofs.mono_in_range_cons in Hm. destruct Hm as [Hf Hm].
+    pose proof (pass_range N (nai f) (fun m c t t' => IHf m c t t') (x :: r) [] first c tgt false Ht (Forall_nil _) Hf Hm) as HP.
+    pose proof (pass_fail_not_done K kopp (nai f) (x :: r) [] first c tgt false) as HF.
+    destruct (pass (nai f) [] first (x :: r) c tgt false) as [tgt1|m' c' tgt1 [|]|e].
+    + inversion H; subst. exact HP.
+    + destruct HP as [H1 H2]. eapply IHf; eauto.
+    + destruct HP as [H1 H2]. inversion H; subst. apply insert_range; assumption.
+    + exfalso. eapply HF; [reflexivity|exact H].
+Qed.
+
+Lemma normalize_range : forall N m c tgt tgt', mono_in_range N m -> poly_in_range N tgt ->
+  normalize m c tgt = Done tgt' -> poly_in_range N tgt'.
+Proof. intros N m c tgt tgt' Hm Ht H. unfold Poly.normalize in H. eapply nai_range; eauto. Qed.
+
+Lemma pmul_range : forall N a b ab, poly_in_range N a -> poly_in_range N b -> pmul a b = Done ab -> poly_in_range N ab.
+Proof.
+  intros N a b ab Ha Hb. unfold Poly.pmul.
+  assert (Hgen : forall a acc0 r, poly_in_range N a -> poly_in_range N acc0 ->
+    fold_left (fun acc mc => fold_left (fun acc' mc' =>
+      bind acc' (fun t => normalize (fst mc ++ fst mc') (kmul (snd mc) (snd mc')) t)) b acc) a (Done acc0) = Done r ->
+    poly_in_range N r).
+  { clear a Ha ab. intros a. induction a as [|[m c] a IHa]; intros acc0 r Ha Hacc E.
+    - cbn [fold_left] in E. inversion E; subst. exact Hacc.
+    - inversion Ha as [|x y Hm Ha']; subst. cbn [fst] in Hm. cbn [fold_left fst snd] in E.
+      assert (Hin : forall b' acc1 o, poly_in_range N b' -> poly_in_range N acc1 ->
+                fold_left (fun acc' mc' => bind acc' (fun t => normalize (m ++ fst mc') (kmul c (snd mc')) t)) b' (Done acc1) = o ->
+                match o with Done r' => poly_in_range N r' | _ => True end).
+      { intros b'. induction b' as [|[m' c'] b' IHb]; intros acc1 o Hb' Hacc1 Eo.
+        - cbn [fold_left] in Eo. subst o. exact Hacc1.
+        - inversion Hb' as [|x y Hm' Hb'']; subst. cbn [fst] in Hm'. cbn [fold_left bind fst snd].
+          destruct (normalize (m ++ m') (kmul c c') acc1) as [t1| | | |] eqn:En.
+          + apply (IHb t1 _ Hb''); [|reflexivity].
+            assert (Hmm : mono_in_range N (m ++ m')) by (apply AlgebraProofs.mono_in_range_app; assumption).
+            apply (normalize_range N _ _ _ _ Hmm Hacc1 En).
+          + clear. induction b' as [|x b' IH]; cbn [fold_left bind]; [exact Logic.I|exact IH].
+          + clear. induction b' as [|x b' IH]; cbn [fold_left bind]; [exact Logic.I|exact IH].
+          + clear. induction b' as [|x b' IH]; cbn [fold_left bind]; [exact Logic.I|exact IH].
+          + clear. induction b' as [|x b' IH]; cbn [fold_left bind]; [exact Logic.I|exact IH]. }
+      specialize (Hin b acc0 _ Hb Hacc eq_refl).
+      destruct (fold_left (fun acc' mc' => bind acc' (fun t => normalize (m ++ fst mc') (kmul c (snd mc')) t)) b (Done acc0)) as [r1| | | |] eqn:E1.
+      + apply (IHa r1 r Ha' Hin E).
+      + exfalso. clear -E. induction a as [|x a IH]; cbn [fold_left] in E; [discriminate|].
+        apply IH. rewrite <- E. f_equal. clear. induction b as [|y b IH]; cbn [fold_left bind]; [reflexivity|exact IH].
+      + exfalso. clear -E. induction a as [|x a IH]; cbn [fold_left] in E; [discriminate|].
+        apply IH. rewrite <- E. f_equal. clear. induction b as [|y b IH]; cbn [fold_left bind]; [reflexivity|exact IH].
+      + exfalso. clear -E. induction a as [|x a IH]; cbn [fold_left] in E; [discriminate|].
+        apply IH. rewrite <- E. f_equal. clear. induction b as [|y b IH]; cbn [fold_left bind]; [reflexivity|exact IH].
+      + exfalso. clear -E. induction a as [|x a IH]; cbn [fold_left] in E; [discriminate|].
+        apply IH. rewrite <- E. f_equal. clear. induction b as [|y b IH]; cbn [fold_left bind]; [reflexivity|exact IH]. }
+  intro E. apply (Hgen a [] ab Ha (Forall_nil _) E).
+Qed.
+
+Lemma psub_range : forall N a b, poly_in_range N a -> poly_in_range N b -> poly_in_range N (psub a b).
+Proof.
+  intros N a b Ha Hb. unfold Poly.psub. revert a Ha. induction Hb as [|[m c] b Hm Hb IH]; intros a Ha; cbn [fold_left]; [exact Ha|].
+  apply IH. apply insert_sub_range; assumption.
+Qed.
+Lemma padd_range : forall N a b, poly_in_range N a -> poly_in_range N b -> poly_in_range N (padd a b).
+Proof.
+  intros N a b Ha Hb. unfold Poly.padd. revert a Ha. induction Hb as [|[m c] b Hm Hb IH]; intros a Ha; cbn [fold_left]; [exact Ha|].
+  apply IH. apply insert_range; assumption.
+Qed.
+Lemma pscale_range : forall N x a, poly_in_range N a -> poly_in_range N (pscale x a).
+Proof.
+  intros N x a Ha. unfold Poly.pscale. destruct (kzero x); [constructor|].
+  induction Ha as [|[m c] a Hm Ha IH]; cbn [map]; constructor; assumption.
+Qed.
+Lemma commutator_range : forall N a b r, poly_in_range N a -> poly_in_range N b -> commutator a b = Done r -> poly_in_range N r.
+Proof.
+  intros N a b r Ha Hb. unfold Poly.commutator.
+  destruct (pmul a b) as [ab| | | |] eqn:E1; try discriminate.
+  destruct (pmul b a) as [ba| | | |] eqn:E2; try discriminate. cbn [bind]. intro E. inversion E; subst.
+  apply psub_range; [apply (pmul_range N a b ab Ha Hb E1)|apply (pmul_range N b a ba Hb Ha E2)].
+Qed.
+
+(** ** nothing in the analysis fails *)
+
+Lemma commutes_total : forall a b : poly, exists r, commutes a b = Done r.
+Proof.
+  intros a b. unfold Poly.commutes.
+  destruct (pmul_total K kadd kmul kopp kzero a b) as [ab E1]. destruct (pmul_total K kadd kmul kopp kzero b a) as [ba E2].
+  rewrite E1, E2. cbn [bind]. apply poly_eq_total_gen.
+Qed.
+
+Lemma commutator_total : forall a b : poly, exists r, commutator a b = Done r.
+Proof.
+  intros a b. unfold Poly.commutator.
+  destruct (pmul_total K kadd kmul kopp kzero a b) as [ab E1]. destruct (pmul_total K kadd kmul kopp kzero b a) as [ba E2].
+  rewrite E1, E2. cbn [bind]. eauto.
+Qed.
+
+Lemma commutes_all_n_total : forall l op, exists r, commutes_all_n l op = Done r.
+Proof.
+  induction l as [|i l IH]; intros op; cbn [Symm.commutes_all_n]; [eauto|].
+  destruct (commutes_total (p_n i) op) as [b E]. rewrite E. cbn [bind]. destruct b; [apply IH|eauto].
+Qed.
+
+Lemma zeros_length : forall N, length (zeros N) = N.
+Proof. intros N. apply repeat_length. Qed.
+
+Lemma shift_test_i_total : forall N Q i, poly_in_range N Q -> i < N -> exists r, shift_test_i N Q i = Done r.
+Proof.
+  intros N Q i HQ Hi. unfold Symm.shift_test_i.
+  destruct (commutator_total Q (p_cdag i)) as [comm Ec]. rewrite Ec. cbn [bind].
+  rewrite (get_melem_sound N comm).
+  - cbn [bind]. apply poly_eq_total_gen.
+  - apply (commutator_range N Q (p_cdag i) comm HQ (p_cdag_in_range N i Hi) Ec).
+  - apply zeros_length.
+  - rewrite AlgebraBasics.upd_length. apply zeros_length.
+Qed.
+
+Lemma shift_test_all_total : forall N Q l, poly_in_range N Q -> (forall i, In i l -> i < N) ->
+  exists r, shift_test_all N l Q = Done r.
+Proof.
+  intros N Q l HQ. induction l as [|i l IH]; intros Hl; cbn [Symm.shift_test_all]; [eauto|].
+  destruct (shift_test_i_total N Q i HQ (Hl i (or_introl eq_refl))) as [b E]. rewrite E. cbn [bind].
+  destruct b; [apply IH; intros j Hj; apply Hl; right; exact Hj|eauto].
+Qed.
+
+Lemma check_symmetry_total : forall sf N H Q, poly_in_range N Q -> exists r, check_symmetry sf N H Q = Done r.
+Proof.
+  intros sf N H Q HQ. unfold Symm.check_symmetry.
+  destruct (commutes_total H Q) as [b1 E1]. rewrite E1. cbn [bind]. destruct b1; [|eauto].
+  destruct (commutes_all_n_total (seq 0 N) Q) as [b2 E2]. rewrite E2. cbn [bind]. destruct b2; [|eauto].
+  destruct sf; [|eauto]. apply shift_test_all_total; [exact HQ|]. intros i Hi. apply in_seq in Hi. lia.
+Qed.
+
+Local Notation sy_offer := (sy_offer K k0 k1 kadd kmul ksub kopp kzero).
+Local Notation compute_custom_loop := (compute_custom_loop K k0 k1 kadd kmul ksub kopp kzero).
+Local Notation compute_custom := (compute_custom K k0 k1 kadd kmul ksub kopp kzero).
+Local Notation compute_default := (compute_default K k0 k1 kadd kmul ksub kopp kzero khalf).
+Local Notation symmetrize := (symmetrize K k0 k1 kadd kmul ksub kopp kzero khalf).
+Local Notation analyse := (analyse K k0 k1 kadd kmul ksub kopp kzero khalf).
+
+(** what a Symmetrizer state is expected to satisfy: accepted operators are in range and were accepted *)
+Definition symm_ok (sf : bool) (N : nat) (H : poly) (sy : symm K) : Prop :=
+  Forall (poly_in_range N) (sy_ops sy) /\
+  Forall (fun Q => check_symmetry sf N H Q = Done true) (sy_ops sy).
+
+Lemma sy_offer_ok : forall sf N H sy Q, poly_in_range N Q -> symm_ok sf N H sy ->
+  exists sy', sy_offer sf N H sy Q = Done sy' /\ symm_ok sf N H sy' /\
+              (forall P, In P (sy_ops sy') -> In P (sy_ops sy) \/ P = Q).
+Proof.
+  intros sf N H sy Q HQ [H1 H2]. unfold Symm.sy_offer.
+  destruct (check_symmetry_total sf N H Q HQ) as [b E]. rewrite E. cbn [bind].
+  eexists. split; [reflexivity|]. cbn [sy_ops]. destruct b.
+  - split; [split|].
+    + apply Forall_app. split; [exact H1|constructor; [exact HQ|constructor]].
+    + apply Forall_app. split; [exact H2|constructor; [exact E|constructor]].
+    + intros P HP. apply in_app_or in HP. destruct HP as [HP|[HP|[]]]; [left; exact HP|right; symmetry; exact HP].
+  - split; [split; assumption|]. intros P HP. left; exact HP.
+Qed.
+
+Lemma compute_custom_loop_ok : forall sf N H cands sy, Forall (poly_in_range N) cands -> symm_ok sf N H sy ->
+  exists sy', compute_custom_loop sf N H cands sy = Done sy' /\ symm_ok sf N H sy' /\
+              (forall P, In P (sy_ops sy') -> In P (sy_ops sy) \/ In P cands).
+Proof.
+  intros sf N H cands. induction cands as [|Q r IH]; intros sy Hc Hs; cbn [Symm.compute_custom_loop].
+  - exists sy. split; [reflexivity|]. split; [exact Hs|]. intros P HP. left; exact HP.
+  - inversion Hc as [|x y HQ Hr]; subst.
+    destruct (sy_offer_ok sf N H sy Q HQ Hs) as [sy1 [E1 [Hs1 Hsub1]]]. rewrite E1. cbn [bind].
+    destruct (IH sy1 Hr Hs1) as [sy2 [E2 [Hs2 Hsub2]]]. exists sy2. split; [exact E2|]. split; [exact Hs2|].
+    intros P HP. destruct (Hsub2 P HP) as [HP1|HP1]; [|right; right; exact HP1].
+    destruct (Hsub1 P HP1) as [HP2|HP2]; [left; exact HP2|right; left; symmetry; exact HP2].
+Qed.
+
+Lemma symm_ok_empty : forall sf N H, symm_ok sf N H (sy_empty K).
+Proof. intros. split; constructor. Qed.
+
+Lemma p_N_in_range : forall N, poly_in_range N (p_N N).
+Proof.
+  intros N. unfold Poly.p_N.
+  assert (Hg : forall l acc, (forall i, In i l -> i < N) -> poly_in_range N acc ->
+               poly_in_range N (fold_left (fun acc i => padd acc (p_n i)) l acc)).
+  { induction l as [|i l IH]; intros acc Hl Hacc; cbn [fold_left]; [exact Hacc|].
+    apply IH; [intros j Hj; apply Hl; right; exact Hj|].
+    apply padd_range; [exact Hacc|apply p_n_in_range; apply Hl; left; reflexivity]. }
+  apply Hg; [intros i Hi; apply in_seq in Hi; lia|constructor].
+Qed.
+
+Lemma p_Sz_in_range : forall N ups P, Forall (fun i => i < N) ups -> p_Sz N ups = Done P -> poly_in_range N P.
+Proof.
+  intros N ups P Hu. unfold Poly.p_Sz, Poly.p_Sz_lists.
+  destruct (length ups =? length (sz_down N ups)); [|discriminate]. intro E. inversion E as [HP]. clear E HP.
+  assert (Hg : forall l acc, (forall ud, In ud l -> fst ud < N /\ snd ud < N) -> poly_in_range N acc ->
+    poly_in_range N (fold_left (fun acc ud => psub (padd acc (pscale khalf (p_n (fst ud)))) (pscale khalf (p_n (snd ud)))) l acc)).
+  { induction l as [|ud l IH]; intros acc Hl Hacc; cbn [fold_left]; [exact Hacc|].
+    apply IH; [intros x Hx; apply Hl; right; exact Hx|].
+    destruct (Hl ud (or_introl eq_refl)) as [A B].
+    apply psub_range; [apply padd_range; [exact Hacc|]|]; apply pscale_range; apply p_n_in_range; assumption. }
+  apply Hg; [|constructor]. intros [u d] Hud. cbn [fst snd]. split.
+  - apply in_combine_l in Hud. rewrite Forall_forall in Hu. apply Hu; exact Hud.
+  - apply in_combine_r in Hud. pose proof (sz_down_range N ups) as Hr. rewrite Forall_forall in Hr. apply Hr; exact Hud.
+Qed.
+
+Lemma spin_up_indices_range : forall spins, Forall (fun i => i < length spins) (spin_up_indices spins).
+Proof.
+  intros spins. apply Forall_forall. intros i Hi. unfold spin_up_indices in Hi.
+  apply filter_In in Hi. destruct Hi as [Hi _]. apply in_seq in Hi. lia.
+Qed.
+
+(** Symmetrizer::compute(bool) with the repair never throws; without it, it returns or throws exWrongLabel *)
+Lemma compute_default_ok : forall sf ignore spins H,
+  exists sy, compute_default true sf ignore spins H = Done sy /\ symm_ok sf (length spins) H sy /\
+    (forall P, In P (sy_ops sy) -> P = p_N (length spins) \/ p_Sz (length spins) (spin_up_indices spins) = Done P).
+Proof.
+  intros sf ignore spins H. unfold Symm.compute_default. set (N := length spins).
+  destruct ignore.
+  - exists (sy_empty K). split; [reflexivity|]. split; [apply symm_ok_empty|]. intros P [].
+  - destruct (sy_offer_ok sf N H (sy_empty K) (p_N N) (p_N_in_range N) (symm_ok_empty sf N H)) as [sy1 [E1 [Hs1 Hsub1]]].
+    rewrite E1. cbn [bind].
+    assert (Hsub1' : forall P, In P (sy_ops sy1) -> P = p_N N \/ p_Sz N (spin_up_indices spins) = Done P).
+    { intros P HP. destruct (Hsub1 P HP) as [[]|HP1]. left; exact HP1. }
+    destruct (valid_sz spins); [|exists sy1; split; [reflexivity|split; assumption]].
+    cbn [andb]. destruct (Nat.eqb (length (spin_up_indices spins)) (length (sz_down N (spin_up_indices spins)))) eqn:El; cbn [negb].
+    + unfold Poly.p_Sz at 1, Poly.p_Sz_lists. rewrite El. cbn [bind].
+      match goal with |- context [sy_offer sf N H sy1 ?P] => set (Psz := P) end.
+      assert (EP : p_Sz N (spin_up_indices spins) = Done Psz).
+      { unfold Poly.p_Sz, Poly.p_Sz_lists. rewrite El. reflexivity. }
+      destruct (sy_offer_ok sf N H sy1 Psz (p_Sz_in_range N _ Psz (spin_up_indices_range spins) EP) Hs1) as [sy2 [E2 [Hs2 Hsub2]]].
+      exists sy2. split; [exact E2|]. split; [exact Hs2|].
+      intros P HP. destruct (Hsub2 P HP) as [HP1|HP1]; [apply Hsub1'; exact HP1|right; subst P; exact EP].
+    + exists sy1. split; [reflexivity|]. split; assumption.
+Qed.
+
+Lemma symmetrize_ok : forall sf mode spins H,
+  match mode with SymmCustom _ cands => Forall (poly_in_range (length spins)) cands | _ => True end ->
+  exists sy, symmetrize true sf mode spins H = Done sy /\ symm_ok sf (length spins) H sy.
+Proof.
+  intros sf mode spins H Hm. destruct mode as [| |cands]; cbn [Symm.symmetrize].
+  - destruct (compute_default_ok sf false spins H) as [sy [E [Hs _]]]. eauto.
+  - destruct (compute_default_ok sf true spins H) as [sy [E [Hs _]]]. eauto.
+  - unfold Symm.compute_custom.
+    destruct (compute_custom_loop_ok sf (length spins) H cands (sy_empty K) Hm (symm_ok_empty _ _ _)) as [sy [E [Hs _]]]. eauto.
+Qed.
+
+(** whenever compute(bool) returns (with or without the S_z repair): the accepted operators are N and/or S_z *)
+Lemma compute_default_done : forall fz sf ignore spins H sy,
+  compute_default fz sf ignore spins H = Done sy ->
+  symm_ok sf (length spins) H sy /\
+  (forall P, In P (sy_ops sy) -> P = p_N (length spins) \/ p_Sz (length spins) (spin_up_indices spins) = Done P).
+Proof.
+  intros fz sf ignore spins H sy. unfold Symm.compute_default. set (N := length spins).
+  destruct ignore.
+  - intro E. inversion E; subst. split; [apply symm_ok_empty|]. intros P [].
+  - destruct (sy_offer_ok sf N H (sy_empty K) (p_N N) (p_N_in_range N) (symm_ok_empty sf N H)) as [sy1 [E1 [Hs1 Hsub1]]].
+    rewrite E1. cbn [bind].
+    assert (Hsub1' : forall P, In P (sy_ops sy1) -> P = p_N N \/ p_Sz N (spin_up_indices spins) = Done P).
+    { intros P HP. destruct (Hsub1 P HP) as [[]|HP1]. left; exact HP1. }
+    destruct (valid_sz spins); [|intro E; inversion E; subst; split; assumption].
+    destruct (fz && negb (Nat.eqb (length (spin_up_indices spins)) (length (sz_down N (spin_up_indices spins))))).
+    + intro E; inversion E; subst; split; assumption.
+    + destruct (p_Sz N (spin_up_indices spins)) as [Psz| | | |] eqn:EP; try discriminate. cbn [bind].
+      destruct (sy_offer_ok sf N H sy1 Psz (p_Sz_in_range N _ Psz (spin_up_indices_range spins) EP) Hs1) as [sy2 [E2 [Hs2 Hsub2]]].
+      rewrite E2. intro E; inversion E; subst. split; [exact Hs2|].
+      intros P HP. destruct (Hsub2 P HP) as [HP1|HP1]; [apply Hsub1'; exact HP1|right; subst P; reflexivity].
+Qed.
+
+Lemma symmetrize_done : forall fz sf mode spins H sy,
+  match mode with SymmCustom _ cands => Forall (poly_in_range (length spins)) cands | _ => True end ->
+  symmetrize fz sf mode spins H = Done sy -> symm_ok sf (length spins) H sy.
+Proof.
+  intros fz sf mode spins H sy Hm. destruct mode as [| |cands]; cbn [Symm.symmetrize]; intro E.
+  - apply (compute_default_done _ _ _ _ _ _ E).
+  - apply (compute_default_done _ _ _ _ _ _ E).
+  - unfold Symm.compute_custom in E.
+    destruct (compute_custom_loop_ok sf (length spins) H cands (sy_empty K) Hm (symm_ok_empty _ _ _)) as [sy' [E' [Hs _]]].
+    congruence.
+Qed.
+
+(** the default candidates shift uniformly *)
+Lemma default_uniform : forall fz sf ignore spins H sy,
+  compute_default fz sf ignore spins H = Done sy -> Forall (uniform_shift (length spins)) (sy_ops sy).
+Proof.
+  intros fz sf ignore spins H sy E. destruct (compute_default_done _ _ _ _ _ _ E) as [_ Hsub].
+  apply Forall_forall. intros P HP. destruct (Hsub P HP) as [->|HSz].
+  - apply uniform_shift_N.
+  - apply (uniform_shift_Sz (length spins) (spin_up_indices spins) P (spin_up_indices_range spins) HSz).
+Qed.
+
+(** with the repaired acceptance test every accepted operator shifts uniformly *)
+Lemma fixed_uniform : forall fz mode spins H sy,
+  match mode with SymmCustom _ cands => Forall (poly_in_range (length spins)) cands | _ => True end ->
+  symmetrize fz true mode spins H = Done sy -> Forall (uniform_shift (length spins)) (sy_ops sy).
+Proof.
+  intros fz mode spins H sy Hm E. destruct (symmetrize_done _ _ _ _ _ _ Hm E) as [Hr Hacc].
+  apply Forall_forall. intros P HP. rewrite Forall_forall in Hr, Hacc.
+  apply (shift_test_sound (length spins) H P (Hr P HP) (Hacc P HP)).
+Qed.
+
+Section PrepareTotal.
+Variables (N : nat) (ops : list poly) (c : qclass K).
+Hypothesis Hops : Forall (poly_in_range N) ops.
+Hypothesis Ec : sc_compute N ops = Done c.
+Hypothesis H10 : k1 <> k0.
+
+Lemma prepare_loop_total : forall m l f0, mono_in_range N m -> (forall R, In R l -> R < numberOfBlocks c) ->
+  exists f, prepare_loop (mapsTo K kadd kopp kzero N c [(m, k1)]) l f0 = Done f.
+Proof.
+  intros m l. induction l as [|R l IH]; intros f0 Hm Hl; cbn [prepare_loop]; [eauto|].
+  unfold prepare_step.
+  destruct (mapsTo_spec N ops c Hops Ec H10 m R Hm (Hl R (or_introl eq_refl))) as [o [Eo _]]. rewrite Eo. cbn [bind].
+  destruct o; apply IH; try exact Hm; intros R' HR'; apply Hl; right; exact HR'.
+Qed.
+
+Lemma prepare_total : forall m, mono_in_range N m -> exists f, prepare K kadd kopp kzero N c [(m, k1)] = Done f.
+Proof.
+  intros m Hm. unfold Symm.prepare. apply prepare_loop_total; [exact Hm|].
+  intros R HR. apply in_seq in HR. lia.
+Qed.
+End PrepareTotal.
+
+Lemma mapM_total : forall (A B : Type) (f : A -> outcome B) (l : list A),
+  (forall a, In a l -> exists b, f a = Done b) -> exists bs, mapM f l = Done bs.
+Proof.
+  intros A B f l. induction l as [|a l IH]; intros H; cbn [mapM]; [eauto|].
+  destruct (H a (or_introl eq_refl)) as [b E]. rewrite E. cbn [bind].
+  destruct IH as [bs E']; [intros x Hx; apply H; right; exact Hx|]. rewrite E'. cbn [bind]. eauto.
+Qed.
+
+(** [analysis_total]: with the S_z repair the whole analysis (symmetrizer, classification, prepare of every
+    c_i and c^+_i) returns normally for every lattice (spin labels), every Hamiltonian polynomial, in
+    every mode (custom candidates with indices in range), with or without the shift test *)
+Theorem analysis_total_gen : k1 <> k0 -> forall sf mode spins H,
+  match mode with SymmCustom _ cands => Forall (poly_in_range (length spins)) cands | _ => True end ->
+  exists a, analyse true sf mode spins H = Done a.
+Proof.
+  intros H10 sf mode spins H Hm. unfold Symm.analyse.
+  destruct (symmetrize_ok sf mode spins H Hm) as [sy [E1 [Hr _]]]. rewrite E1. cbn [bind].
+  destruct (sc_compute_ok (length spins) (sy_ops sy) Hr) as [c [E2 _]]. rewrite E2. cbn [bind].
+  destruct (mapM_total _ _ (prepare_cdag K k1 kadd kopp kzero (length spins) c) (seq 0 (length spins))) as [cd E3].
+  { intros i Hi. apply in_seq in Hi. unfold Symm.prepare_cdag, Poly.p_cdag.
+    apply (prepare_total (length spins) (sy_ops sy) c Hr E2 H10). constructor; [cbn; lia|constructor]. }
+  rewrite E3. cbn [bind].
+  destruct (mapM_total _ _ (prepare_c K k1 kadd kopp kzero (length spins) c) (seq 0 (length spins))) as [cc E4].
+  { intros i Hi. apply in_seq in Hi. unfold Symm.prepare_c, Poly.p_c.
+    apply (prepare_total (length spins) (sy_ops sy) c Hr E2 H10). constructor; [cbn; lia|constructor]. }
+  rewrite E4. cbn [bind]. eauto.
+Qed.
+
+End Algebra.
+
+(** * The theorems of property C07, fully quantified *)
+Section Theorems.
+Variable K : Type.
+Variables (k0 k1 : K) (kadd kmul ksub : K -> K -> K) (kopp : K -> K).
+Variable kzero : K -> bool.
+Variable khalf : K.
+
+Local Notation poly := (poly K).
+Local Notation cp := (coef_poly K k0 k1 kadd kmul kopp).
+Local Notation RING := (ring_ok K k0 k1 kadd kmul ksub kopp kzero).
+Local Notation DOMAIN := (forall a b : K, kmul a b = k0 -> a = k0 \/ b = k0).
+Local Notation in_range := (poly_in_range K).
+Local Notation check_symmetry := (check_symmetry K k0 k1 kadd kmul ksub kopp kzero).
+Local Notation symmetrize := (symmetrize K k0 k1 kadd kmul ksub kopp kzero khalf).
+Local Notation sc_compute := (sc_compute K k0 kadd ksub kopp kzero).
+Local Notation prepare := (prepare K kadd kopp kzero).
+Local Notation analyse := (analyse K k0 k1 kadd kmul ksub kopp kzero khalf).
+Local Notation qnf := (qnf K k0 k1 kadd kmul kopp).
+Local Notation uniform_shift := (uniform_shift K k0 k1 kadd kmul kopp).
+Local Notation cands_in_range mode N :=
+  (match mode with SymmCustom _ cands => Forall (in_range N) cands | _ => True end).
+
+(** the three operator kinds of the property *)
+Inductive fop_kind := FCdag (i : nat) | FC (i : nat) | FQuad (i j : nat).
+Definition fop_mono (o : fop_kind) : monomial :=
+  match o with FCdag i => [cdag i] | FC i => [cann i] | FQuad i j => [cdag i; cann j] end.
+Definition fop_poly (o : fop_kind) : poly := [(fop_mono o, k1)].
+Definition fop_in_range (N : nat) (o : fop_kind) : Prop :=
+  match o with FCdag i => i < N | FC i => i < N | FQuad i j => i < N /\ j < N end.
+Lemma fop_poly_presets : forall i j,
+  fop_poly (FCdag i) = p_cdag K k1 i /\ fop_poly (FC i) = p_c K k1 i /\ fop_poly (FQuad i j) = p_n_offdiag K k1 i j.
+Proof. intros; repeat split; reflexivity. Qed.
+Lemma fop_mono_range : forall N o, fop_in_range N o -> mono_in_range N (fop_mono o).
+Proof.
+  intros N [i|i|i j] H; cbn [fop_in_range fop_mono] in *.
+  - constructor; [exact H|constructor].
+  - constructor; [exact H|constructor].
+  - destruct H. constructor; [assumption|]. constructor; [assumption|constructor].
+Qed.
+
+(** [partition_exact]: for every number of modes and every list of (accepted) operators the
+    classification returns normally; every Fock state lies in exactly one block; (block, inner) <-> state
+    are mutually inverse; every block is non-empty and lists its states in increasing order; two states
+    share a block iff their quantum numbers coincide *)
+Theorem partition_exact : RING -> forall N ops, Forall (in_range N) ops ->
+  exists c, sc_compute N ops = Done c /\
+    let size := Nat.pow 2 N in let nb := numberOfBlocks c in
+    (forall s, s < size -> exists b, b < nb /\ getBlockNumber size c s = Done b /\
+        forall b', b' < nb -> (In s (nth b' (sc_blocks c) []) <-> b' = b)) /\
+    (forall s, s < size -> exists b m,
+        getBlockNumber size c s = Done b /\ getInnerState size c s = Done m /\ getFockState c b m = Done s) /\
+    (forall b m s, getFockState c b m = Done s ->
+        s < size /\ getBlockNumber size c s = Done b /\ getInnerState size c s = Done m) /\
+    (forall b, b < nb -> StronglySorted lt (nth b (sc_blocks c) []) /\ nth b (sc_blocks c) [] <> []) /\
+    (forall s s', s < size -> s' < size ->
+        (getBlockNumber size c s = getBlockNumber size c s' <->
+         qnf ops (state_of_nat N s) = qnf ops (state_of_nat N s'))).
+Proof.
+  intros Hring N ops Hops.
+  destruct (sc_compute_ok K k0 k1 kadd kmul ksub kopp kzero Hring N ops Hops) as [c [Ec I]].
+  exists c. split; [exact Ec|]. unfold SInv in I. cbn zeta.
+  split; [|split; [|split; [|split]]].
+  - intros s Hs. eapply exactly_one_block; eauto.
+  - intros s Hs. eapply address_roundtrip; eauto.
+  - intros b m s E. eapply address_roundtrip_inv; eauto.
+  - intros b Hb. split; [eapply block_sorted; eauto|].
+    destruct (block_nonempty _ _ _ _ _ I b Hb) as [s Hs]. intro E. rewrite E in Hs. destruct Hs.
+  - intros s s' Hs Hs'. rewrite (gbn_ok _ _ _ _ _ I s Hs), (gbn_ok _ _ _ _ _ I s' Hs').
+    rewrite <- (same_block_iff_same_key _ _ _ _ _ I s s' Hs Hs'). split; [intro E; inversion E; reflexivity|intros ->; reflexivity].
+Qed.
+
+(** [accepted_is_diagonal]: an accepted operator is diagonal in the Fock basis (any commutative ring) *)
+Theorem accepted_is_diagonal : RING -> forall sf N H Q, in_range N Q ->
+  check_symmetry sf N H Q = Done true ->
+  forall s t, length s = N -> length t = N -> s <> t -> cp Q s t = k0.
+Proof. intros Hring sf N H Q HQ Hacc. exact (accepted_is_diagonal_gen K k0 k1 kadd kmul ksub kopp kzero Hring sf N H Q HQ Hacc). Qed.
+
+(** [H_block_diagonal]: whatever the mode, the Hamiltonian has no matrix element between blocks
+    (coefficient ring without zero divisors) *)
+Theorem H_block_diagonal : RING -> DOMAIN -> forall fz sf mode spins H sy c,
+  in_range (length spins) H -> cands_in_range mode (length spins) ->
+  symmetrize fz sf mode spins H = Done sy -> sc_compute (length spins) (sy_ops sy) = Done c ->
+  let size := Nat.pow 2 (length spins) in
+  forall s t, s < size -> t < size ->
+  cp H (state_of_nat (length spins) s) (state_of_nat (length spins) t) <> k0 ->
+  exists b, getBlockNumber size c s = Done b /\ getBlockNumber size c t = Done b.
+Proof.
+  intros Hring Hdom fz sf mode spins H sy c HH Hm Es Ec.
+  destruct (symmetrize_done K k0 k1 kadd kmul ksub kopp kzero khalf Hring fz sf mode spins H sy Hm Es) as [Hr Hacc].
+  exact (H_block_diagonal_gen K k0 k1 kadd kmul ksub kopp kzero Hring Hdom sf (length spins) H (sy_ops sy) c HH Hr Hacc Ec).
+Qed.
+
+(** [single_target] for operators that shift uniformly: c_i, c^+_i, c^+_i c_j map all states of a block
+    into one block, different blocks into different blocks, and prepare() records exactly the block
+    pairs between which the operator has a matrix element (nothing refused, nothing lost) *)
+Theorem single_target : RING -> k1 <> k0 -> forall N ops c o,
+  Forall (in_range N) ops -> Forall (uniform_shift N) ops -> fop_in_range N o ->
+  sc_compute N ops = Done c ->
+  let size := Nat.pow 2 N in
+  let blk s := nth s (sc_sbi c) 0 in
+  (forall s s' sg sg' t t', s < size -> s' < size ->
+     act_mono (fop_mono o) (state_of_nat N s) = Done (Some (sg, t)) ->
+     act_mono (fop_mono o) (state_of_nat N s') = Done (Some (sg', t')) ->
+     (blk s = blk s' <-> blk (nat_of_state t) = blk (nat_of_state t'))) /\
+  exists f, prepare N c (fop_poly o) = Done f /\ fo_bimap f = fo_parts f /\
+    forall L R, In (L, R) (fo_bimap f) <->
+      (R < numberOfBlocks c /\
+       exists s sg t, In s (nth R (sc_blocks c) []) /\
+                      act_mono (fop_mono o) (state_of_nat N s) = Done (Some (sg, t)) /\ blk (nat_of_state t) = L).
+Proof.
+  intros Hring H10 N ops c o Hr Hu Ho Ec. pose proof (fop_mono_range N o Ho) as Hm. cbn zeta. split.
+  - exact (single_target_gen K k0 k1 kadd kmul ksub kopp kzero Hring N ops c Hr Ec (fop_mono o) Hu Hm).
+  - exact (prepare_complete_gen K k0 k1 kadd kmul ksub kopp kzero Hring N ops c Hr Ec H10 Hu (fop_mono o) Hm).
+Qed.
+
+(** the hypothesis of [single_target] holds for the default analysis (N, S_z) ... *)
+Theorem default_candidates_shift_uniformly : RING -> forall fz sf mode spins H sy,
+  match mode with SymmCustom _ _ => False | _ => True end ->
+  symmetrize fz sf mode spins H = Done sy ->
+  Forall (in_range (length spins)) (sy_ops sy) /\ Forall (uniform_shift (length spins)) (sy_ops sy).
+Proof.
+  intros Hring fz sf mode spins H sy Hm E. destruct mode as [| |cands]; [| |destruct Hm]; cbn [Symm.symmetrize] in E.
+  - split; [apply (compute_default_done K k0 k1 kadd kmul ksub kopp kzero khalf Hring _ _ _ _ _ _ E)|].
+    exact (default_uniform K k0 k1 kadd kmul ksub kopp kzero khalf Hring _ _ _ _ _ _ E).
+  - split; [apply (compute_default_done K k0 k1 kadd kmul ksub kopp kzero khalf Hring _ _ _ _ _ _ E)|].
+    exact (default_uniform K k0 k1 kadd kmul ksub kopp kzero khalf Hring _ _ _ _ _ _ E).
+Qed.
+
+(** ... for every operator whose diagonal is linear in the occupation numbers,
+    <s|Q|s> = c0 + sum_k q_k n_k(s) ... *)
+Theorem linear_candidates_shift_uniformly : RING -> forall N Q c0 terms,
+  (forall s, length s = N -> cp Q s s = lin_form K k0 k1 kadd kmul c0 terms s) -> uniform_shift N Q.
+Proof. intros Hring. exact (uniform_shift_linear K k0 k1 kadd kmul ksub kopp kzero Hring). Qed.
+
+(** ... and, with the repaired acceptance test, for EVERY accepted operator: the full statement *)
+Theorem accepted_shift_uniformly_fixed : RING -> forall fz mode spins H sy,
+  cands_in_range mode (length spins) ->
+  symmetrize fz true mode spins H = Done sy ->
+  Forall (in_range (length spins)) (sy_ops sy) /\ Forall (uniform_shift (length spins)) (sy_ops sy).
+Proof.
+  intros Hring fz mode spins H sy Hm E. split.
+  - apply (symmetrize_done K k0 k1 kadd kmul ksub kopp kzero khalf Hring fz true mode spins H sy Hm E).
+  - exact (fixed_uniform K k0 k1 kadd kmul ksub kopp kzero khalf Hring fz mode spins H sy Hm E).
+Qed.
+
+(** [analysis_total] with the S_z repair *)
+Theorem analysis_total : RING -> k1 <> k0 -> forall sf mode spins H,
+  cands_in_range mode (length spins) -> exists a, analyse true sf mode spins H = Done a.
+Proof. intros Hring H10. exact (analysis_total_gen K k0 k1 kadd kmul ksub kopp kzero khalf Hring H10). Qed.
+
+End Theorems.
